@@ -207,6 +207,44 @@ def e2e(rep, tier, seed):
             meta.append((pid, "aligned", 0, [(a, b)], its))
         cases.append({"text": text, "config": [], "again": False, "lex": False})
         meta.append((pid, "unrestricted", 0, None, its))
+    # runs of use / mod / extern crate declarations with blank lines, comments and attribute lines BETWEEN the declarations: a
+    # selection that covers only such a line selects no declaration, so nothing may move (regrouping options included)
+    for si in range(nsyn // 2):
+        kind = rs.choice(["use", "use", "mod", "extern"])
+        names = rs.sample(["zeta", "alpha", "std::fmt", "core::mem", "crate::x", "beta::b", "std::cmp", "gamma", "yak", "serde::de"], rs.randint(3, 5))
+        if kind != "use":
+            names = [x.split("::")[-1] for x in names]
+            names = sorted(set(names), key=names.index)
+        lines, items, gaps = [], [], []
+        for x in names:
+            g = rs.random()
+            if lines and g < 0.35:
+                lines.append("")
+                gaps.append(len(lines))
+            elif lines and g < 0.6:
+                lines.append("// about %s" % x.replace("::", " "))
+                gaps.append(len(lines))
+            if rs.random() < 0.25:
+                lines.append("#[cfg(feature = \"f\")]")
+                gaps.append(len(lines))
+            start = len(lines) + 1          # the declaration itself: an attribute line above it is a gap line here
+            lines.append({"use": "use  %s;", "mod": "mod  %s;", "extern": "extern  crate %s;"}[kind] % x)
+            items.append((start, len(lines)))
+        lines.append("")
+        lines.append("fn  tail( ) { }")
+        text = "\n".join(lines) + "\n"
+        offs = [0]
+        for l in lines:
+            offs.append(offs[-1] + len(l.encode()) + 1)
+        its = [(a, b, offs[a - 1], offs[b] - 1, "item") for a, b in items]
+        pid = "synthrun/%d" % si
+        cfgs = [[["group_imports", g], ["reorder_imports", "true"], ["reorder_modules", "true"]] for g in ("Preserve", "StdExternalCrate", "One")]
+        for gl in gaps:
+            cfg = cfgs[(si + gl) % 3]
+            cases.append({"text": text, "config": cfg + [fl([(gl, gl)])], "again": False, "lex": False})
+            meta.append((pid, "gap", gl, [(gl, gl)], its))
+        cases.append({"text": text, "config": [], "again": False, "lex": False})
+        meta.append((pid, "unrestricted", 0, None, its))
     # statements of a selected function: select one statement, the others must be emitted line for line
     STMTS = ["let  a%d=1 ;", "call%d( x,y ) ;", "if  a%d {\nb( ) ;\n}", "match x%d {\n1=>2 ,\n_=>3 ,\n}", "let v%d = vec![ 1,2 ,3 ] ;", "// note %d\nlet  z = ( 1 ) ;",
              "for i%d in 0 .. 3 {\nwork( i ) ;\n}", "let s%d = S{a:1,b:2} ;", "x%d . y( ) . z( ) ;", "unsafe  { p%d( ) }", "let c%d = | q | q+1 ;"]
@@ -283,6 +321,15 @@ def e2e(rep, tier, seed):
             n += 1
             out = r["out"]
             base = {"pool_id": pid, "selection": R, "variant": vi, "config": c["config"], "input": text, "out": out}
+            if name == "gap":
+                for (l1, l2, lo, hi, kind) in items:
+                    snippet = tb[lo:hi].decode("utf-8", "replace")
+                    if snippet not in out:
+                        if rep.violation("e2e_unselected_run_changed", dict(base, item_lines=[l1, l2], item=snippet),
+                                         "line %d of %s holds no declaration (blank / comment / attribute line between them), yet with only that line selected the declaration %r is rewritten" % (vi, pid, snippet)):
+                            found += 1
+                        break
+                continue
             if name == "stmt":
                 lines, spans = stmt_meta[pid]
                 olines = out.split("\n")
@@ -326,14 +373,19 @@ def e2e(rep, tier, seed):
                 first = snippet.lstrip().split(None, 1)[0] if snippet.strip() else ""
                 if snippet.replace("\r\n", "\n") not in out.replace("\r\n", "\n"):
                     is_run = re.match(r"^(pub(\([^)]*\))?\s+)?(use|mod|extern\s+crate)\b", snippet.lstrip()) is not None and snippet.rstrip().endswith(";")
-                    key = "e2e_partially_selected_run" if is_run else "e2e_unselected_item_changed:%s" % pid
+                    # by design a run of use / mod / extern crate declarations is rewritten as a whole when ONE OF ITS MEMBERS is
+                    # selected (recorded finding); a selection that touches no declaration at all must leave every run alone
+                    run_member_selected = any(
+                        re.match(r"^(#\[[^\]]*\]\s*)*(pub(\([^)]*\))?\s+)?(use|mod|extern\s+crate)\b", tb[lo2:hi2].decode("utf-8", "replace").lstrip()) is not None
+                        and any(not (m2 < a or b < m1) for a, b in R) for (m1, m2, lo2, hi2, _k2) in items)
+                    key = "e2e_partially_selected_run" if (is_run and run_member_selected) else "e2e_unselected_item_changed:%s" % pid
                     if rep.violation(key, dict(base, item_lines=[l1, l2], item=snippet),
                                      "an unselected top-level item (lines %d-%d) of %s is not emitted byte for byte under selection %r: %r" % (l1, l2, pid, R, snippet[:100])):
                         found += 1
                     break
     rep.coverage["e2e_runs_judged"] = n
     found += binary_selection(rep, tier, seed)
-    rep.coverage["e2e_rule"] = "pool source programs (thorough: all; quick: the 1/%d selected by the seed) x selections {one item exactly, a random window cutting through items, an empty range, a range past the end, no range, every line} and for the first two, two equivalent re-spellings (adjacent / overlapping pieces, an extra empty range, permuted): unselected top-level items byte for byte; synthetic functions of 3..6 badly formatted statements with one statement selected: every other statement line for line; one-line items ending in blanks / too wide with a random window selected: diagnostics only for lines inside it, lines outside unchanged; through the binary: the same selection given for a path and for stdin gives the same text, and a file not named in the selection is not written; empty selections change nothing; full selection = unrestricted; equal unions give equal text" % MOD
+    rep.coverage["e2e_rule"] = "pool source programs (thorough: all; quick: the 1/%d selected by the seed) x selections {one item exactly, a random window cutting through items, an empty range, a range past the end, no range, every line} and for the first two, two equivalent re-spellings (adjacent / overlapping pieces, an extra empty range, permuted): unselected top-level items byte for byte; synthetic functions of 3..6 badly formatted statements with one statement selected: every other statement line for line; one-line items ending in blanks / too wide with a random window selected: diagnostics only for lines inside it, lines outside unchanged; through the binary: the same selection given for a path and for stdin gives the same text, and a file not named in the selection is not written; empty selections change nothing; full selection = unrestricted; equal unions give equal text; runs of use / mod / extern crate declarations with blank, comment and attribute lines between them under every group_imports setting, with only such an in-between line selected: no declaration may change" % MOD
     return found
 
 
